@@ -19,3 +19,6 @@ CONSTANTS
  BottomUp = FALSE
  Dev_UidSubtreeUnchecked = FALSE
  Dev_TopKeepsParent = FALSE
+ UidKey <- StrUidKey
+ KeyForms = {"id"}
+ Dev_KeyUnchecked = FALSE
